@@ -20,7 +20,7 @@ func init() {
 	vfw.Register(&vfw.Check{
 		ID:    "C14",
 		Level: "exploration",
-		Rule: "one case = one schedule of 5-8 tasks over one real TxPool + chain: 2-4 client tasks submit transactions (in and out of nonce order, duplicates of each other's transactions, internal and external path, priority types), the engine task takes candidate lists, proposes and inserts blocks (ResetTo), a sync task toggles StartSync/StopSync, a query task reads by hash and address; every cooperative lock acquisition is a scheduling point decided by the tape; " +
+		Rule: "one case = one schedule of 5-10 tasks over one real TxPool + chain: 2-4 client tasks submit transactions (in and out of nonce order, duplicates of each other's transactions, internal and external path, priority types), the engine task takes candidate lists, proposes and inserts blocks (ResetTo) - some of them built by a second node of the same operator from same-nonce variants of the pool's transactions -, submitter tasks are made runnable exactly when a block is inserted, a sync task toggles StartSync/StopSync, a query task reads by hash and address; every cooperative lock acquisition is a scheduling point decided by the tape; a dead-lock of the tasks is a violation; " +
 			"non-trivial = >= 2 blocks with transactions were built from the pool while client tasks were still submitting; distinct by the task-switch sequence (history fingerprint)",
 		Real: []string{"core/mempool.TxPool (add, put, Remove, ResetTo, movePendingTxsToExecutable, BuildBlockTransactions, StartSync/StopSync)", "core/mempool block builder", "core/state.NonceCache", "blockchain.ProposeBlock / AddBlock", "blockchain/validation"},
 		Stub: []string{"tx keeper file persistence (off, as in upstream tests)", "push tracker loops of the pool (not started)", "gossip of accepted transactions"},
